@@ -17,6 +17,7 @@ type State struct {
 	Dirty    bool     `json:"dirty"`    // first-run gate: database holds other objects
 	Allow    bool     `json:"allow"`    // WithAllowDirty
 	Baseline string   `json:"baseline"` // WithBaselineVersion ("" = none)
+	CRLF     bool     `json:"crlf,omitempty"` // the files use Windows line endings
 }
 
 // Expect is the reference answer.
